@@ -143,6 +143,7 @@ def run(R, P, rule):
                 for p_ in probes:
                     fo = fold.Folder(fn, calls={}, inline=True, max_steps=400000)
                     fo._tabs = tabs
+                    fo.statics = {}
                     fresh[p_] = fo.run([p_])
                 for q in primes:
                     for p_ in probes:
@@ -253,6 +254,67 @@ def run(R, P, rule):
         else:
             R.ob(rule, "adding real seconds from next to one inserted second to within 3 s of another one (%d spans, several inserted seconds in "
                  "between, both directions): exactly N SI seconds later" % nl, True)
+        # ---- (b'') operands held in the other representations the leap table is looked up by (month-count-weekday values are not
+        # ordered by their packed word within a month; day numbers): from the last three days of every leap month and the day
+        # after, to 5 s past the inserted second and back
+        E2 = {k: dtu.enum_value(k) for k in ("DT_YMCW", "DT_DAISY")}
+        fz = resolve("__ymd_to_daisy")
+        if fz is None:
+            raise AnalysisBroken("%s: __ymd_to_daisy vanished" % rule)
+        fo = fold.Folder(fz, calls={}, inline=True, max_steps=400000)
+        fo._tabs = tabs
+        dz0 = fo.run([{"y": 1917, "m": 1, "d": 1}])      # the library's day number of 1917-01-01 (its converters are decided under C01)
+        if not isinstance(dz0, int):
+            raise AnalysisBroken("%s: __ymd_to_daisy is not foldable" % rule)
+
+        def other(tag, d):
+            base = {"typ": E2[tag], "sandwich": 1, "d.typ": E2[tag], "t.typ": E["DT_HMS"], "t.hms.h": d.hour, "t.hms.m": d.minute,
+                    "t.hms.s": d.second, "t.hms.ns": 0}
+            if tag == "DT_YMCW":
+                base.update({"d.ymcw.y": d.year, "d.ymcw.m": d.month, "d.ymcw.c": (d.day - 1) // 7 + 1, "d.ymcw.w": d.isoweekday()})
+            else:
+                base.update({"d.daisy": (d.date() - datetime.date(1917, 1, 1)).days + dz0})
+            return base
+
+        def read(tag, r, t=0):
+            if tag == "DT_YMCW":
+                y, m, c, w = (_val(r.get(k), t) for k in ("d.ymcw.y", "d.ymcw.m", "d.ymcw.c", "d.ymcw.w"))
+                # the day of the month the (count, weekday) pair names
+                first = datetime.date(y, m, 1).isoweekday() if isinstance(y, int) and 1 <= (m or 0) <= 12 and 1 <= y <= 9999 else None
+                day = None if first is None or not c or w is None else ((w or 7) - first) % 7 + 1 + 7 * (c - 1)
+                return (y, m, day) + tuple(_val(r.get(k), t) for k in ("t.hms.h", "t.hms.m", "t.hms.s"))
+            dz = _val(r.get("d.daisy"), t)
+            d0 = datetime.date(1917, 1, 1) + datetime.timedelta(days=dz - dz0) if isinstance(dz, int) and 0 < dz < 10 ** 6 else None
+            return ((d0.year, d0.month, d0.day) if d0 else (None, None, None)) + tuple(_val(r.get(k), t) for k in ("t.hms.h", "t.hms.m", "t.hms.s"))
+        bado = []
+        no = 0
+        for tag in ("DT_YMCW", "DT_DAISY"):
+            for (ti, ci) in steps:
+                after = datetime.datetime(1970, 1, 1) + datetime.timedelta(seconds=ti + 5)
+                for days, hh in ((0, 43200), (0, 86390), (1, 43200), (2, 43200), (-1, 43200)):
+                    # ti is 00:00:00 of the day after the leap day
+                    d = datetime.datetime(1970, 1, 1) + datetime.timedelta(seconds=ti - 86400 * (days + 1) + hh)
+                    for a, b in ((d, after), (after, d)):
+                        cnt = si(b) - si(a)
+                        try:
+                            fo = fold.Folder(fadd, calls={}, inline=True, max_steps=3000000)
+                            fo._tabs = tabs
+                            r = fo.run([other(tag, a), {"durtyp": E["DT_DURS"], "dv": cnt, "neg": 0, "tai": 1}])
+                            got = read(tag, r)
+                        except fold.Abort as e:
+                            got = "abort: %s" % e
+                        no += 1
+                        exp = (b.year, b.month, b.day, b.hour, b.minute, b.second)
+                        if got != exp:
+                            bado.append((tag, a.isoformat(), cnt, str(got), str(exp)))
+        n += no
+        if bado:
+            tag, day, t, got, exp = sorted(bado)[0]
+            R.finding(rule, fadd, "adding real seconds to operands held otherwise", "%d of %d (start, count) points differ; first: %s held as %s %+d "
+                      "real seconds gives %s, %s is that many SI seconds later" % (len(bado), no, day, tag, t, got, exp))
+        else:
+            R.ob(rule, "adding real seconds to date-times held as month-count-weekday values and as day numbers, from the last days of every "
+                 "leap month across the inserted second and back (%d spans): exactly N SI seconds later" % no, True)
         # ---- (c) differences in real seconds through the ddiff pipeline
         calls = dict(fmtdecode.LIBC)
 
